@@ -292,6 +292,20 @@ func c08types(c *core.Ctx, sch *schemagen.Schema) {
 					return core.Outcome{Class: "diff", Sample: sample, Viol: &core.Violation{Key: "typed:value-differs:" + genericPath(ps.path),
 						Msg: fmt.Sprintf("%s: %q through a variable differs from the literal %s: %s", pathStr, v[0], v[1], trunc(d, 400))}}
 				}
+				// the same text written directly as a (quoted) string: the schema admits a string here and the loader converts it
+				strDoc := strings.Replace(doc, "@@", "\""+v[0]+"\"", 1)
+				pq, eq := c08loadDoc(base, strDoc, nil)
+				if eq != nil {
+					if _, isPanic := eq.(*core.PanicError); isPanic {
+						return core.Outcome{Class: "panic", Sample: sample, Viol: &core.Violation{Key: "typed:panic:" + genericPath(ps.path), Msg: fmt.Sprintf("%s written as the string %q: %v", pathStr, v[0], eq)}}
+					}
+					return core.Outcome{Class: "rej", Sample: sample, Viol: &core.Violation{Key: "typed:string-literal-rejected:" + ps.kind,
+						Msg: fmt.Sprintf("%s: the valid %s text %q written as a quoted string is rejected although the same text through a variable loads: %v", pathStr, ps.kind, v[0], eq)}}
+				}
+				if d := ProjectDiff(pl, pq); d != "" {
+					return core.Outcome{Class: "diff", Sample: sample, Viol: &core.Violation{Key: "typed:string-literal-differs:" + genericPath(ps.path),
+						Msg: fmt.Sprintf("%s: %q as a quoted string differs from the literal %s: %s", pathStr, v[0], v[1], trunc(d, 400))}}
+				}
 				return core.Outcome{Class: pathStr + v[0], Sample: sample}
 			})
 		}
